@@ -1,0 +1,10 @@
+//go:build verif
+
+package app
+
+import "github.com/glebziz/fs_db/internal/di"
+
+// VerifContainer returns the DI container of the server application.
+func (a *app) VerifContainer() *di.Container {
+	return a.container
+}
